@@ -3,6 +3,7 @@
 import json, os, importlib, sys
 V = os.path.dirname(os.path.dirname(os.path.abspath(__file__)))
 sys.path.insert(0, V)
+from engine.explain import full_explanation
 props = [json.loads(l) for l in open(os.path.join(V, "properties.jsonl"))]
 NA = json.load(open(os.path.join(V, "tool", "not_applicable.json")))
 checks = []
@@ -20,7 +21,7 @@ for p in props:
             "engine": "pikafacts+pikarules",
             "level_claimed": {"category": "other",
                               "text": "Static analysis of the current source: structural necessary conditions of %s decided on all CFG paths of the "
-                                      "named functions in every analysed instantiation; not a proof of the behaviour. %s" % (pid, mod.EXPLANATION),
+                                      "named functions in every analysed instantiation; not a proof of the behaviour. %s" % (pid, full_explanation(pid, mod.EXPLANATION)),
                               "design_ref": "DESIGN.md section 5, %s" % pid},
             "level_note": "Trusted: clang 14 front end/CFG builder, tool/pikafacts.cc, the idiom catalogue in engine/, the rule tables in rules/%s.py. "
                           "Assumes: %s" % (pid, "; ".join(getattr(mod, "ASSUMPTIONS", []))),
